@@ -25,6 +25,12 @@ use crate::wire::StreamId;
 
 pub use channels::{ChannelEvent, Channels, ChannelsConfig};
 
+/// Re-exports of the private git request header parser, for verification harnesses.
+#[cfg(feature = "verif-hooks")]
+pub mod verif {
+    pub use super::upload_pack::pktline::{git_request, GitRequest};
+}
+
 /// Worker pool configuration.
 pub struct Config {
     /// Number of worker threads.
